@@ -66,7 +66,27 @@ func runPipelined(c hCase, ls hRun) ([]byte, string) {
 		w.SendCuts(batch, deriveCuts(c.CutSeed+len(batch), len(batch), c.Discipline, lineEnds))
 		batch, lineEnds = nil, nil
 	}
+	settle := func() string {
+		st := w.WaitQuiet()
+		for i := 0; st == harness.QGate && i < 64; i++ {
+			r.B.ReleaseArrived()
+			st = w.WaitQuiet()
+		}
+		return st
+	}
 	for _, s := range ls.steps {
+		if s.Barrier {
+			// each group on its own, the server settled in between
+			flush()
+			for _, g := range s.Sent {
+				if st := settle(); st != harness.QIdle && st != harness.QClosed {
+					w.Finish()
+					return nil, "pipelined run: server not idle before a barrier group: " + st
+				}
+				w.Send(g)
+			}
+			continue
+		}
 		for _, g := range s.Sent {
 			batch = append(batch, g...)
 			lineEnds = append(lineEnds, len(batch))
